@@ -748,7 +748,7 @@ func ruleSplitDedupe(rule string) func(*Ctx) {
 					if !ok {
 						continue
 					}
-					name := st.Field(fa.Field).Name()
+					name := fieldAliasName(st.Field(fa.Field))
 					for _, rr := range *fa.Referrers() {
 						if s, ok := rr.(*ssa.Store); ok && s.Addr == fa {
 							switch name {
